@@ -173,8 +173,15 @@ def run(ctx):
                 for el in arr:
                     got[el.get('target')] = el
                 for n in c['combo']:
-                    want = json.loads(base[(n, 'json')]['out'])
                     el = got.get('127.0.0.1:%d' % servers[n].port)
+                    try:
+                        want = json.loads(base[(n, 'json')]['out'])
+                    except ValueError:
+                        # a single-target -j run that ends in a plain-text error line: in the array the same text is carried by an {"target", "error"} element
+                        txt = canon.strip_ansi(base[(n, 'json')]['out']).strip()
+                        if el is None or canon.strip_ansi(str(el.get('error', ''))).strip() != txt:
+                            ctx.violation('leak/json/%s' % n, 'JSON entry of failing target %s in a run with %r (threads=%d) is %r, its single-target run prints %r' % (n, c['combo'], c['threads'], el, txt), desc)
+                        continue
                     if el != want:
                         diff = [k for k in want if (el or {}).get(k) != want[k]]
                         ctx.violation('leak/json/%s' % n, 'JSON entry of target %s in a run with %r (threads=%d) differs from its single-target result in %r' % (n, c['combo'], c['threads'], diff), desc)
